@@ -13,6 +13,7 @@ from .gnomonic import GnomonicProjection
 from .polyhedral import PolyhedralProjection
 from .crs import CRS
 from ..math import vec2, vec3
+from .. import _verif
 
 # Type definitions
 FaceTriangleIndex = Literal[0, 1, 2, 3, 4, 5, 6, 7, 8, 9]
@@ -138,6 +139,10 @@ class DodecahedronProjection:
         while len(self.face_triangles) <= index:
             self.face_triangles.append(None)
 
+        if _verif.ENABLED:
+            _verif.emit({'ev': 'cache', 'cache': 'face', 'key': [face_triangle_index, bool(reflected), bool(squashed)],
+                         'slot': index, 'hit': self.face_triangles[index] is not None})
+
         if self.face_triangles[index] is not None:
             return self.face_triangles[index]
 
@@ -208,6 +213,10 @@ class DodecahedronProjection:
         # Extend array if needed
         while len(self.spherical_triangles) <= index:
             self.spherical_triangles.append(None)
+
+        if _verif.ENABLED:
+            _verif.emit({'ev': 'cache', 'cache': 'spherical', 'key': [face_triangle_index, origin_id, bool(reflected)],
+                         'slot': index, 'hit': self.spherical_triangles[index] is not None})
 
         if self.spherical_triangles[index] is not None:
             return self.spherical_triangles[index]
